@@ -148,7 +148,7 @@ def run(ctx):
         elemkeep.check_orderings(ctx, cfg, prog, ctx.mod(cfg), 'ELEMKEEP')
         import statsync
         ctx.rule('STATSYNC', 'the per-insertion statistics record the same outcome that is reported (per build profile)')
-        statsync.check(ctx, cfg, prog, 'STATSYNC')
+        statsync.check(ctx, cfg, prog, 'STATSYNC', ctx.mod(cfg))
     ctx.note('TopologyGuarantee::Pseudomanifold has no Level-3 gate at completion (relies on ValidationPolicy::DebugOnly, '
              'i.e. nothing in release): observation, not a rule')
     return ctx.finish(EXPLANATION)
